@@ -40,6 +40,8 @@ reg("C07", level="model_checking", overlay="plain",
     budget={"quick": 150, "thorough": 1500}, workers={"quick": 16, "thorough": 16},
     variants=[{"name": "cap3", "overlay": "world", "overlay_extra": "tsscap=3"},
               {"name": "realcap", "overlay": "plain", "workers": 3},
+              {"name": "sched", "overlay": "sched", "args": ["-vmode", "sched"]},
+              {"name": "schedcap3", "overlay": "sched", "overlay_extra": "tsscap=3", "args": ["-vmode", "sched"]},
               {"name": "race", "overlay": "plain", "race": True, "workers": 1, "args": ["-vmode", "race"]}],
     assumptions=["capacity behaviour is explored exhaustively on a cap-3 instance (constant re-valued in the compiled copy, nothing else changed) and bound to the shipped 2^20 by one full-size run per arrival order",
                  "timestamps stay inside one NTP era (ordering across the 2036 boundary is a recorded limitation)",
@@ -75,3 +77,11 @@ reg("C17", level="model_checking", overlay="plain",
     level_text="All histories inside the bounds are run on the real filters; the lucky-packet output is compared with a 10-line reference model after every sample, the Ntimed filter with the statement's raw-output rules (using the bounds the filter itself reports) and with a fresh filter after every reset / epoch change.",
     budget={"quick": 120, "thorough": 900}, workers={"quick": 16, "thorough": 16},
     assumptions=["round-trip delays within a window are pairwise distinct (as the statement requires)", "Ntimed learned bounds are observed through the filter's own debug log record", "float tolerance 2 ns"])
+
+reg("C12", level="model_checking", overlay="plain",
+    technique="stateless exploration of call/time histories in synctest virtual time with canonical-state pruning, reference key list; lock-level schedules; free-running race pass",
+    level_text="The real Provider runs under the bubble's virtual clock; every history inside the bounds is executed and after every step Current and Get (on every identifier ever issued and on unissued ones) are compared with a reference list of (id, generation time, last issue). Concurrency: all lock-level interleavings of 2-3 threads within the preemption bound are compared with the sequential model, and a separate free-running -race pass looks for unsynchronised accesses.",
+    budget={"quick": 120, "thorough": 900}, workers={"quick": 16, "thorough": 16},
+    variants=[{"name": "main"}, {"name": "sched", "overlay": "sched", "args": ["-vmode", "sched"]},
+              {"name": "race", "race": True, "workers": 1, "args": ["-vmode", "race"]}],
+    assumptions=["time advances in steps from a 13-value alphabet around the thresholds", "crypto/rand is a deterministic counter stream"])
